@@ -217,3 +217,309 @@ def coq_act(a):
 
 def coq_evprog(prog):
     return "[" + "; ".join("OTurn" if o[0] == "turn" else "OAct (%s)" % coq_act(o[1]) for o in prog) + "]"
+
+
+# =====================================================================================
+#                                        promises
+# programs: ["new"] | ["send",p,mid,beh] | ["sendonly",p,mid,beh] | ["when",p,w,kind] | ["resolve",p,x] | ["turn"]
+#           beh = ["ret",v] | ["raise",f] | ["retp",q];  x = ["val",v] | ["fail",f] | ["prom",q]
+#           kind = "when" | "then" | "except"
+# events:   [1,p,mid] sent  [2,p,mid,v] method invoked on value v  [3,p,w,0,v]/[3,p,w,1,f] observer told
+#           [4,p] UsageError raised to the caller  [5,p] AttributeError raised to the caller
+# =====================================================================================
+_MISSING = object()
+
+
+def canon_outcome(x):
+    """-> (0, v) for a Target, (1, f) for a Failure"""
+    if isinstance(x, Failure):
+        return (1, x.value.code if isinstance(x.value, Boom) else -1)
+    if isinstance(x, Target):
+        return (0, x.v)
+    return (0, -999)
+
+
+class Target(object):
+    def __init__(self, run, v):
+        self.run = run
+        self.v = v
+
+    def m(self, mid, beh):
+        return self.run.invoked(self, mid, beh)
+
+
+class PrRun:
+    def __init__(self):
+        self.q = fresh_queue()
+        self.P = []                 # promises by index (None: creation failed half-way)
+        self.trace = []
+        self.viol = []
+        self.sent = {}              # p -> [mid]
+        self.deliv = {}             # p -> [mid]
+        self.msg = {}               # mid -> (p, beh, result index or None)
+        self.result_of = {}         # result promise index -> mid
+        self.returned = {}          # mid -> what the method actually did: ("val",v) ("fail",f) ("prom",q)
+        self.accepted = {}          # p -> x   first resolution accepted from the program
+        self.watch = {}             # p -> [(w, kind)]
+        self.seen = {}              # w -> [outcome]
+        self.in_op = False
+        self.nrefused = 0
+        self.nchained = 0
+
+    def bad(self, sig, text):
+        self.viol.append((sig, text))
+
+    def invoked(self, target, mid, beh):
+        p = self.msg[mid][0]
+        self.trace.append([2, p, mid, target.v])
+        self.deliv.setdefault(p, []).append(mid)
+        if self.in_op:
+            self.bad("oracle/delivered-synchronously", "message %d was delivered to promise %d's target before the send returned / "
+                     "outside a reactor turn" % (mid, p))
+        if beh[0] == "ret":
+            self.returned[mid] = ("val", beh[1])
+            return Target(self, beh[1])
+        if beh[0] == "raise":
+            self.returned[mid] = ("fail", beh[1])
+            raise Boom(beh[1])
+        q = beh[1]
+        if q < len(self.P) and self.P[q] is not None:
+            self.returned[mid] = ("prom", q)
+            return self.P[q]
+        self.returned[mid] = ("val", 0)
+        return Target(self, 0)
+
+    def op(self, o):
+        k = o[0]
+        if k == "turn":
+            ran, exc = one_reactor_call()
+            if exc is not None:
+                self.bad("oracle/exception-escaped-turn", "an exception left _turn: %r" % (exc,))
+            return
+        if k == "new":
+            p, r = pm.makePromise()
+            self.P.append(p)
+            return
+        p = o[1]
+        if p >= len(self.P) or self.P[p] is None:
+            return
+        prom = self.P[p]
+        self.in_op = True
+        try:
+            if k in ("send", "sendonly"):
+                mid, beh = o[2], o[3]
+                ridx = len(self.P) if k == "send" else None
+                self.msg[mid] = (p, beh, ridx)
+                try:
+                    if k == "send":
+                        rp = pm.send(prom).m(mid, beh)
+                        if not isinstance(rp, pm.Promise):
+                            self.bad("oracle/send-result", "send() returned %r" % (rp,))
+                        self.P.append(rp)
+                        self.result_of[ridx] = mid
+                    else:
+                        r = pm.sendOnly(prom).m(mid, beh)
+                        if r is not None:
+                            self.bad("oracle/send-result", "sendOnly() returned %r" % (r,))
+                    self.trace.append([1, p, mid])
+                    self.sent.setdefault(p, []).append(mid)
+                except AttributeError as e:
+                    if k == "send":
+                        self.P.append(None)
+                    self.trace.append([5, p])
+                    self.bad("oracle/attribute-error", "send to promise %d raised %r" % (p, e))
+            elif k == "when":
+                w, kind = o[2], o[3]
+                self.watch.setdefault(p, []).append((w, kind))
+
+                def told(x, w=w, p=p):
+                    c = canon_outcome(x)
+                    self.trace.append([3, p, w, c[0], c[1]])
+                    self.seen.setdefault(w, []).append(c)
+                    return None
+                try:
+                    if kind == "when":
+                        pm.when(prom).addBoth(told)
+                    elif kind == "then":
+                        if prom._then(told) is not prom:
+                            self.bad("oracle/then-result", "_then did not return the promise")
+                    else:
+                        if prom._except(told) is not prom:
+                            self.bad("oracle/then-result", "_except did not return the promise")
+                except AttributeError as e:
+                    self.trace.append([5, p])
+                    self.bad("oracle/attribute-error", "when/_then/_except on promise %d raised %r" % (p, e))
+            elif k == "resolve":
+                x = o[2]
+                if x[0] == "val":
+                    arg = Target(self, x[1])
+                elif x[0] == "fail":
+                    arg = Failure(Boom(x[1]))
+                else:
+                    if x[1] >= len(self.P) or self.P[x[1]] is None:
+                        return
+                    arg = self.P[x[1]]
+                    self.nchained += 1
+                was_eventual = prom._state == pm.EVENTUAL
+                user_made = p not in self.result_of
+                try:
+                    prom._resolve(arg)
+                    ok = True
+                except pm.UsageError:
+                    ok = False
+                    self.nrefused += 1
+                    self.trace.append([4, p])
+                except AttributeError as e:
+                    ok = None
+                    self.trace.append([5, p])
+                    self.bad("oracle/attribute-error", "resolving promise %d raised %r" % (p, e))
+                must_refuse = (p in self.accepted) if user_made else (not was_eventual)
+                if ok is True and must_refuse:
+                    self.bad("oracle/second-resolve-accepted", "promise %d was resolved before, yet _resolve(%r) was accepted" % (p, x))
+                if ok is False and not must_refuse:
+                    self.bad("oracle/first-resolve-refused", "the first resolution %r of promise %d was refused" % (x, p))
+                if ok is True and p not in self.accepted:
+                    self.accepted[p] = x
+                    if prom._state == pm.EVENTUAL:
+                        self.bad("oracle/promise-not-broken" if x[0] == "fail" else "oracle/promise-not-resolved",
+                                 "promise %d is still EVENTUAL after _resolve(%r) was accepted" % (p, x))
+        finally:
+            self.in_op = False
+
+    # ---- what the property says the resolution of promise p must finally be (None: unresolved)
+    def expected(self, p, seen=()):
+        if p in seen:
+            return None
+        if p in self.accepted:
+            x = self.accepted[p]
+        elif p in self.result_of:
+            mid = self.result_of[p]
+            tp = self.msg[mid][0]
+            e = self.expected(tp, seen + (p,))
+            if e is None:
+                return None
+            if e[0] == 1:
+                return e
+            x = self.returned.get(mid)
+            if x is None:
+                return ("undelivered",)
+        else:
+            return None
+        if x[0] == "val":
+            return (0, x[1])
+        if x[0] == "fail":
+            return (1, x[1])
+        return self.expected(x[1], seen + (p,))
+
+    def snapshot(self):
+        out = [len(self.q._events)]
+        for p in self.P:
+            if p is None:
+                out += [0, 0, 0]
+                continue
+            st = [pm.EVENTUAL, pm.CHAINED, pm.NEAR, pm.BROKEN].index(p._state)
+            t = p.__dict__.get("_target", _MISSING)
+            if t is _MISSING:
+                out += [st, 0, 0]
+            else:
+                c = canon_outcome(t)
+                out += [st, 1 + c[0], c[1]]
+        return out
+
+    def drain_and_judge(self, limit=400):
+        for _ in range(limit):
+            ran, exc = one_reactor_call()
+            if exc is not None:
+                self.bad("oracle/exception-escaped-turn", "an exception left _turn: %r" % (exc,))
+            if not ran:
+                break
+        else:
+            self.bad("oracle/no-quiescence", "the queue did not drain in %d turns" % limit)
+        for i, p in enumerate(self.P):
+            if p is None:
+                continue
+            e = self.expected(i)
+            if e == ("undelivered",):
+                self.bad("oracle/message-lost", "the message whose result is promise %d was never delivered although its target "
+                         "promise resolved to a value" % i)
+                continue
+            st = [pm.EVENTUAL, pm.CHAINED, pm.NEAR, pm.BROKEN].index(p._state)
+            t = p.__dict__.get("_target", _MISSING)
+            actual = None if st in (0, 1) and t is _MISSING else (canon_outcome(t) if t is not _MISSING else ("no-target",))
+            if e is not None and e[0] == 1 and st != 3:
+                self.bad("oracle/promise-not-broken", "promise %d must end BROKEN with failure %d, but its state is %s"
+                         % (i, e[1], ["EVENTUAL", "CHAINED", "NEAR", "BROKEN"][st]))
+            elif actual != e or (e is not None and st != (2 if e[0] == 0 else 3)):
+                self.bad("oracle/wrong-resolution", "promise %d must end as %r, but is in state %d with target %r" % (i, e, st, actual))
+            sent, got = self.sent.get(i, []), self.deliv.get(i, [])
+            if e is not None and e[0] == 0:
+                if got != sent:
+                    self.bad("oracle/delivery-order", "messages sent to promise %d: %r, delivered to its resolution: %r" % (i, sent, got))
+            elif got:
+                self.bad("oracle/delivered-without-target", "promise %d did not resolve to a value, yet %r were delivered" % (i, got))
+            for w, kind in self.watch.get(i, []):
+                seen = self.seen.get(w, [])
+                want = []
+                if e is not None and not (kind == "then" and e[0] == 1) and not (kind == "except" and e[0] == 0):
+                    want = [e]
+                if seen != want:
+                    sig = "oracle/observer-count" if len(seen) != len(want) else "oracle/observer-outcome"
+                    self.bad(sig, "observer %d (%s) of promise %d was told %r; the promise's resolution is %r" % (w, kind, i, seen, e))
+
+
+def run_pr(prog):
+    r = PrRun()
+    for o in prog:
+        r.op(o)
+    trace = [x for e in r.trace for x in e]
+    state = r.snapshot()
+    full = [list(e) for e in r.trace]
+    r.drain_and_judge()
+    kinds = {}
+    for p, ws in r.watch.items():
+        for w, kind in ws:
+            kinds[w] = kind
+    return dict(trace=trace, state=state, viol=r.viol, full=full, kinds=kinds,
+                ndeliv=sum(len(v) for v in r.deliv.values()), nobs=sum(len(v) for v in r.seen.values()),
+                nrefused=r.nrefused, nchained=r.nchained)
+
+
+def filter_model_trace(flat, kinds):
+    """the model reports every observer; _then only hears values and _except only failures"""
+    out = []
+    i = 0
+    size = {1: 3, 2: 4, 3: 5, 4: 2, 5: 2}
+    while i < len(flat):
+        n = size[flat[i]]
+        e = flat[i:i + n]
+        i += n
+        if e[0] == 3:
+            k = kinds.get(e[2], "when")
+            if (k == "then" and e[3] == 1) or (k == "except" and e[3] == 0):
+                continue
+        out += e
+    return out
+
+
+def coq_beh(b):
+    return {"ret": "BRet %d", "raise": "BRaise %d", "retp": "BRetP %d"}[b[0]] % b[1]
+
+
+def coq_prop(o):
+    k = o[0]
+    if k == "new":
+        return "PNew"
+    if k == "turn":
+        return "PTurn"
+    if k == "send":
+        return "PSend %d %d (%s)" % (o[1], o[2], coq_beh(o[3]))
+    if k == "sendonly":
+        return "PSendOnly %d %d (%s)" % (o[1], o[2], coq_beh(o[3]))
+    if k == "when":
+        return "PWhen %d %d" % (o[1], o[2])
+    x = o[2]
+    return "PResolve %d (%s)" % (o[1], {"val": "RVal %d", "fail": "RFail %d", "prom": "RProm %d"}[x[0]] % x[1])
+
+
+def coq_prprog(prog):
+    return "[" + "; ".join(coq_prop(o) for o in prog) + "]"
